@@ -169,5 +169,10 @@ pub fn run(opts: &Opts) -> i32 {
         let deadline = std::time::Instant::now() + std::time::Duration::from_secs_f64((opts.budget_s - rep.elapsed()).max(5.0));
         super::c02::race_space("C01", &rep, opts, "R2-overlapping-syncs", &starts, super::syncworld::Urg::None, if q { 4 } else { 5 }, 2, deadline);
     }
+    if opts.replay.is_none() && std::env::var("TCMC_SPACE").is_err() {
+        // a never-synchronized replica that holds only pending operations meets a server that
+        // offers a snapshot (both storages): it must converge with the others like any replica
+        super::c12::pending_only_replica(&rep);
+    }
     rep.finish()
 }
